@@ -298,7 +298,8 @@ Fixpoint fama_parse_feature (el : xml) (here : path) (parent : ptr) (seen : list
                                     else gor j its mn mx seen
                                 end) 0%nat (x_children rel) 0%Z 0%Z seen with
                        | Err e => Err e
-                       | Ok (cs, a, b, seen') =>
+                       | Ok ([], _, _, _) => Err FlamaException   (* fix: a relation without features is rejected *)
+                       | Ok ((_ :: _) as cs, a, b, seen') =>
                            match go (S k) rest seen' with
                            | Err e => Err e
                            | Ok (prs, s3) => Ok (PRelation (PPath here) a b cs :: prs, s3)
